@@ -22,7 +22,7 @@ Print Assumptions C02_header_bytes.
    specification does not allow (unsupported version number, unknown opcode, direction bit against the opcode's direction) is
    refused by DecodeHeader ... *)
 Theorem C02_header_reject :
-  forall vb op, 0 <= vb < 256 -> 0 <= op < 256 -> spec_header_acceptable vb op = false ->
+  forall vb op, 0 <= vb < 256 -> 0 <= op < 256 -> spec_header_acceptable_strict vb op = false ->
   forall fl sid len rest, length sid = sid_width vb -> length len = 4%nat ->
   decode_header (vb :: fl :: sid ++ op :: len ++ rest) = DErr.
 Proof. exact header_reject. Qed.
@@ -30,7 +30,7 @@ Print Assumptions C02_header_reject.
 
 (* ... and one it allows is decoded, with the version, direction, flags, stream id, opcode and length it carries *)
 Theorem C02_header_accept :
-  forall vb op, 0 <= vb < 256 -> 0 <= op < 256 -> spec_header_acceptable vb op = true ->
+  forall vb op, 0 <= vb < 256 -> 0 <= op < 256 -> spec_header_acceptable_strict vb op = true ->
   forall fl sid len rest, length sid = sid_width vb -> length len = 4%nat ->
   decode_header (vb :: fl :: sid ++ op :: len ++ rest) = DOk (decoded_header vb fl sid op len) rest.
 Proof. exact header_accept. Qed.
@@ -135,9 +135,9 @@ Example C02_ex_revise : both (mkframe 66 0 3 None [] None (M_Revise {| rv_Revisi
 Proof. vm_compute. reflexivity. Qed.
 
 (* the rejection clause is not vacuous: 65434 of the 65536 pairs are unacceptable, e.g. a READY marked as a request *)
-Example C02_ex_reject : spec_header_acceptable 4 2 = false /\ decode_header ([4; 0] ++ [0; 0] ++ 2 :: [0; 0; 0; 0] ++ []) = DErr.
+Example C02_ex_reject : spec_header_acceptable_strict 4 2 = false /\ decode_header ([4; 0] ++ [0; 0] ++ 2 :: [0; 0; 0; 0] ++ []) = DErr.
 Proof. split; vm_compute; reflexivity. Qed.
-Example C02_ex_accept : spec_header_acceptable 132 2 = true /\
+Example C02_ex_accept : spec_header_acceptable_strict 132 2 = true /\
   decode_header ([132; 0] ++ [0; 0] ++ 2 :: [0; 0; 0; 0] ++ [9]) =
   DOk {| h_IsResponse := true; h_Version := 4; h_Flags := 0; h_StreamId := 0; h_OpCode := 2; h_BodyLength := 0 |} [9].
 Proof. split; vm_compute; reflexivity. Qed.
